@@ -18,7 +18,8 @@ Definition h_sin (lat : R) : R := sin (lat * (PI / 180)).
 Definition h_cos (lat : R) : R := sqrt (1 - h_sin lat * h_sin lat).
 Definition h_tan (lat : R) : R := h_sin lat / h_cos lat.
 Definition h_x (lat : R) : R := 1 - E2_ * h_sin lat * h_sin lat.
-Definition h_re0 (lat : R) : R := A_ / sqrt (h_x lat).
+Definition h_w (lat : R) : R := sqrt (h_x lat).
+Definition h_re0 (lat : R) : R := A_ / h_w lat.
 Definition h_rn (lat alt : R) : R := h_re0 lat * (1 - E2_) / h_x lat + alt.
 Definition h_re (lat alt : R) : R := h_re0 lat + alt.
 Definition h_Om1 (lat : R) : R := RATE_ * h_cos lat.
@@ -27,7 +28,7 @@ Definition h_Om3 (lat : R) : R := - RATE_ * h_sin lat.
 
 (** gravity(lat, alt) of _numba_integrate.py: value on the ellipsoid times the height factor *)
 Definition h_g0 (lat : R) : R :=
-  GE_ * (1 + FG_ * (h_sin lat * h_sin lat)) / sqrt (1 - E2_ * (h_sin lat * h_sin lat)).
+  GE_ * (1 + FG_ * (h_sin lat * h_sin lat)) / h_w lat.
 Definition h_gravity (lat alt : R) : R := h_g0 lat * (1 - 2 * alt / A_).
 
 (** transport rate rho and chi = Omega + rho for a given horizontal velocity *)
